@@ -156,6 +156,26 @@ impl log4rs::config::Deserialize for FaultyDeserializer {
     }
 }
 
+/// Rolling.tla Roller = "noop": a user-defined roller that returns Ok without touching the file
+#[derive(Debug)]
+struct NoopRoller;
+impl Roll for NoopRoller {
+    fn roll(&self, _file: &Path) -> anyhow::Result<()> {
+        log4rs::verif::fault_point("rotate.final", 0)?; // the scripted faults of the "remove" step apply here
+        Ok(())
+    }
+}
+#[derive(serde::Deserialize)]
+struct NoopConfig {}
+struct NoopRollerDeserializer;
+impl log4rs::config::Deserialize for NoopRollerDeserializer {
+    type Trait = dyn Roll;
+    type Config = NoopConfig;
+    fn deserialize(&self, _: NoopConfig, _: &log4rs::config::Deserializers) -> anyhow::Result<Box<dyn Roll>> {
+        Ok(Box::new(NoopRoller))
+    }
+}
+
 #[derive(Debug)]
 struct ScriptedTrigger {
     pre: bool,
@@ -484,6 +504,8 @@ pub fn replay_case(case: &Value, mat: Mat) -> Option<Value> {
                         Ok(r) => Box::new(r),
                         Err(e) => return fail(si, "roller build failed", json!(e.to_string())),
                     }
+                } else if p["roller"] == "noop" {
+                    Box::new(NoopRoller)
                 } else if mat.delete_roller {
                     Box::new(DeleteRoller::new())
                 } else {
@@ -495,6 +517,7 @@ pub fn replay_case(case: &Value, mat: Mat) -> Option<Value> {
                     let mut d = log4rs::config::Deserializers::default();
                     d.insert("scripted", ScriptedDeserializer { decisions: decisions.clone(), consulted: consulted.clone() });
                     d.insert("faulty", FaultyDeserializer { script: enc_script.clone() });
+                    d.insert("noop", NoopRollerDeserializer);
                     let trig_cfg = match trig.as_str() {
                         "size" => json!({"kind": "size", "limit": limit * mat.unit as u64}),
                         "startup" => json!({"kind": "onstartup", "min_size": limit * mat.unit as u64}),
@@ -506,6 +529,8 @@ pub fn replay_case(case: &Value, mat: Mat) -> Option<Value> {
                             r["base"] = json!(base);
                         }
                         r
+                    } else if p["roller"] == "noop" {
+                        json!({"kind": "noop"})
                     } else if mat.delete_roller {
                         json!({"kind": "delete"})
                     } else {
